@@ -247,7 +247,7 @@ def scen_nested_failure(rng):
     else:
         body.append(['w', None])
     funcs = [
-        _fn('f0', [(_bf(x, 2) if outer_is_bf else _sb(1))] + _probe(rng, [d1, d2, y, x, '', '%s/%s' % (d1, d2)], 3)),
+        _fn('f0', _probe(rng, [d1, y, x, ''], 1) + [(_bf(x, 2) if outer_is_bf else _sb(1))] + _probe(rng, [d1, d2, y, x, '', '%s/%s' % (d1, d2)], 3)),
         _fn('f1', [_bf(x, 2, catch=rng.random() < 0.7)] + _probe(rng, [d1, y, x], 1)),
         _fn('f2', body, 'nonjson' if fail == 'nonjson' else 'acc'),
         _fn('f3', [['w', None]] if rng.random() < 0.85 else []),
@@ -511,7 +511,64 @@ def scen_longname(rng):
     return {'tree': [], 'funcs': funcs, 'steps': steps}
 
 
-SCENARIOS = [scen_nested_failure, scen_swap, scen_stale_dir, scen_dups, scen_versions, scen_reads, scen_identity]
+def scen_foreign_swap(rng):
+    """foreign files at the paths a build targets; inside ONE build the same name is first a (failing or
+    succeeding) output file and then a directory of outputs; the build then commits or rolls back"""
+    d = rng.choice(NAMES)
+    P = '%s/%s' % (d, rng.choice(NAMES)) if rng.random() < 0.6 else d
+    inner = P + '/' + rng.choice(NAMES)
+    keep = '%s/keep' % d if P != d else 'keep'
+    first = rng.choice(['raise', 'nowrite', 'ok', 'raise'])
+    body = {'raise': [['w', None], ['raise', 5]], 'nowrite': [], 'ok': [['w', None]]}[first]
+    tree = []
+    if P != d:
+        tree.append([d, 'dir'])
+    if rng.random() < 0.85:
+        tree.append([P, 'file', 'foreign', 111])
+    tree.append([keep, 'file', 'k', 112])
+    funcs = [
+        _fn('f0', [_bf(P, 1, catch=True, cmp_=rng.choice('MH'))] + _probe(rng, [P, d, ''], 2)
+            + [_bf(inner, 2, catch=True)] + _probe(rng, [P, inner, ''], 2)),
+        _fn('f1', body),
+        _fn('f2', [['w', None]] if rng.random() < 0.8 else [['raise', 6]]),
+    ]
+    funcs.append(_fn('rootfail', funcs[0]['stmts'] + [['raise', 99]]))
+    steps = [_build(root=rng.choice([0, 3, 3])), _build(root=rng.choice([0, 3])), _build()]
+    if rng.random() < 0.5:
+        steps.append(['clean', 'n'])
+    return {'tree': tree, 'funcs': funcs, 'steps': steps}
+
+
+def scen_sibling_failure(rng):
+    """inside one recorded call: an output that succeeds in a new directory D, a sibling in D (or below it)
+    that fails and is caught, then queries that depend on D; followed by unchanged rebuilds"""
+    d = rng.choice(NAMES)
+    D = d if rng.random() < 0.5 else '%s/%s' % (d, rng.choice(NAMES))
+    ok = D + '/ok'
+    bad = D + '/bad' if rng.random() < 0.6 else D + '/sub/bad'
+    fail = rng.choice(['raise', 'nowrite', 'raise_written'])
+    body = {'raise': [['raise', 4]], 'nowrite': [], 'raise_written': [['w', None], ['raise', 4]]}[fail]
+    order = [_bf(ok, 2, catch=True, cmp_=rng.choice('MH')), _bf(bad, 3, catch=True)]
+    if rng.random() < 0.3:
+        order.reverse()
+    inner = order + _probe(rng, [D, d, '', ok, bad, D + '/sub'], 3)
+    outer_bf = rng.random() < 0.4
+    funcs = [
+        _fn('f0', _probe(rng, [D, d, ok], 1) + [(_bf('top', 1, catch=True) if outer_bf else _sb(1, catch=True))] + _probe(rng, [D, d, ''], 2)),
+        _fn('f1', inner + ([['w', None]] if outer_bf else [])),
+        _fn('f2', [['w', None]]),
+        _fn('f3', body),
+    ]
+    funcs.append(_fn('rootfail', funcs[0]['stmts'] + [['raise', 99]]))
+    steps = [_build(), _build(), _build()]
+    if rng.random() < 0.4:
+        steps += [['mut', rng.choice(['delete', 'touch', 'write']), rng.choice([ok, 'zz/unseen']), 'm1', 6100], _build(), _build()]
+    if rng.random() < 0.3:
+        steps.append(['clean', 'n'])
+    return {'tree': [], 'funcs': funcs, 'steps': steps}
+
+
+SCENARIOS = [scen_nested_failure, scen_swap, scen_stale_dir, scen_dups, scen_versions, scen_reads, scen_identity, scen_foreign_swap, scen_sibling_failure]
 
 
 def gen_scenario_cases(seed, per_family, dirsize=4096, families=SCENARIOS):
